@@ -114,3 +114,21 @@ pub proof fn lemma_find_some(w: Seq<Factor>, c: Carrier, s: Source, d: Dest, st:
 {
     if j > 0 && !fkey(w[0], c, s, d, st) { assert(w.drop_first()[j - 1] == w[j]); lemma_find_some(w.drop_first(), c, s, d, st, j - 1); }
 }
+/// everything a proof needs to connect `w.iter().find(|f| key(f))` / `.any(..)` (specified over `w.as_ref()`) with `find_spec`
+pub proof fn lemma_find_bridge(w: Seq<Factor>, c: Carrier, s: Source, d: Dest, st: Step)
+    ensures
+        w.as_ref().len() == w.len(),
+        forall|j: int| #![trigger w.as_ref()[j]] #![trigger w[j]] 0 <= j < w.len() ==> *w.as_ref()[j] == w[j],
+        forall|n: int| 0 <= n < w.len() && fkey(#[trigger] w[n], c, s, d, st) && (forall|j: int| 0 <= j < n ==> !fkey(#[trigger] w[j], c, s, d, st))
+            ==> find_spec(w, c, s, d, st) == Some(fvals(w[n])),
+        forall|j: int| 0 <= j < w.len() && fkey(#[trigger] w[j], c, s, d, st) ==> find_spec(w, c, s, d, st) is Some,
+        (forall|j: int| 0 <= j < w.len() ==> !fkey(#[trigger] w[j], c, s, d, st)) ==> find_spec(w, c, s, d, st) is None,
+{
+    let r_ = w.as_ref();
+    assert(r_.len() == w.len());
+    assert forall|j: int| #![trigger r_[j]] #![trigger w[j]] 0 <= j < w.len() implies *r_[j] == w[j] by {}
+    assert forall|n: int| 0 <= n < w.len() && fkey(#[trigger] w[n], c, s, d, st) && (forall|j: int| 0 <= j < n ==> !fkey(#[trigger] w[j], c, s, d, st))
+        implies find_spec(w, c, s, d, st) == Some(fvals(w[n])) by { lemma_find_first(w, c, s, d, st, n); }
+    assert forall|j: int| 0 <= j < w.len() && fkey(#[trigger] w[j], c, s, d, st) implies find_spec(w, c, s, d, st) is Some by { lemma_find_some(w, c, s, d, st, j); }
+    if forall|j: int| 0 <= j < w.len() ==> !fkey(#[trigger] w[j], c, s, d, st) { lemma_find_none(w, c, s, d, st); }
+}
